@@ -1,10 +1,540 @@
 import E3fpVerif.Model.Fprint
 import E3fpVerif.Lemmas.Uniq
+import E3fpVerif.Lemmas.FpAux
 namespace E3fpVerif.Props.C11
 open E3fpVerif
 
 /-- `|` / `+` : union -/
 theorem or_union (a b : List Nat) (x : Nat) : x ∈ setOpIdx .or a b ↔ x ∈ a ∨ x ∈ b := by
   simp [setOpIdx, mem_uniq]
+
+/-! ## set algebra on index arrays -/
+
+/-- `+` on bit fingerprints is the same union as `|` -/
+theorem add_union (a b : List Nat) (x : Nat) : x ∈ setOpIdx .add a b ↔ x ∈ a ∨ x ∈ b := by
+  simp [setOpIdx, mem_uniq]
+
+/-- `&` : intersection -/
+theorem and_inter (a b : List Nat) (x : Nat) : x ∈ setOpIdx .and a b ↔ x ∈ a ∧ x ∈ b := by
+  simp [setOpIdx]
+
+/-- `-` : difference -/
+theorem sub_diff (a b : List Nat) (x : Nat) : x ∈ setOpIdx .sub a b ↔ x ∈ a ∧ x ∉ b := by
+  simp [setOpIdx]
+
+/-- `^` : symmetric difference -/
+theorem xor_symmdiff (a b : List Nat) (x : Nat) :
+    x ∈ setOpIdx .xor a b ↔ (x ∈ a ∧ x ∉ b) ∨ (x ∈ b ∧ x ∉ a) := by
+  simp [setOpIdx, mem_uniq]
+
+/-- the set-theoretic meaning of each operator -/
+def memSpec (op : SetOp) (a b : List Nat) (x : Nat) : Prop :=
+  match op with
+  | .or | .add => x ∈ a ∨ x ∈ b
+  | .and => x ∈ a ∧ x ∈ b
+  | .sub => x ∈ a ∧ x ∉ b
+  | .xor => (x ∈ a ∧ x ∉ b) ∨ (x ∈ b ∧ x ∉ a)
+
+/-- all five membership characterisations at once -/
+theorem mem_setOpIdx (op : SetOp) (a b : List Nat) (x : Nat) :
+    x ∈ setOpIdx op a b ↔ memSpec op a b x := by
+  cases op
+  · exact or_union a b x
+  · exact add_union a b x
+  · exact and_inter a b x
+  · exact sub_diff a b x
+  · exact xor_symmdiff a b x
+
+/-- every element of a set-operator result comes from one of the operands -/
+theorem setOpIdx_subset (op : SetOp) (a b : List Nat) (x : Nat) (h : x ∈ setOpIdx op a b) :
+    x ∈ a ∨ x ∈ b := by
+  rw [mem_setOpIdx] at h
+  cases op <;> simp only [memSpec] at h
+  · exact h
+  · exact h
+  · exact Or.inl h.1
+  · exact Or.inl h.1
+  · rcases h with h | h
+    · exact Or.inl h.1
+    · exact Or.inr h.1
+
+/-- on ascending operands the result is ascending (so `numpy.unique` in the constructor is the identity) -/
+theorem setOpIdx_strictAsc (op : SetOp) (a b : List Nat) (ha : StrictAsc a) :
+    StrictAsc (setOpIdx op a b) := by
+  cases op
+  · exact strictAsc_uniq _
+  · exact strictAsc_uniq _
+  · exact List.Pairwise.filter _ ha
+  · exact List.Pairwise.filter _ ha
+  · exact strictAsc_uniq _
+
+/-- the set operators on bit fingerprints of equal length succeed; the result is a well-formed bit
+fingerprint of the same length and level -1 whose index array is ascending and has exactly the
+members the set operation prescribes -/
+theorem setOp_ok (op : SetOp) (f g : Fp) (hf : f.WF) (hg : g.WF) (hb : f.bits = g.bits) :
+    ∃ h, Fp.setOp op f g = .ok h ∧ h.WF ∧ h.bits = f.bits ∧ h.kind = .bit ∧ h.level = -1 ∧
+      h.idx = setOpIdx op f.idx g.idx ∧ StrictAsc h.idx ∧
+      ∀ x, x ∈ h.idx ↔ memSpec op f.idx g.idx x := by
+  have hlt : ∀ i ∈ setOpIdx op f.idx g.idx, i < f.bits := by
+    intro i hi
+    rcases setOpIdx_subset op _ _ i hi with h | h
+    · exact hf.2.1 i h
+    · rw [hb]; exact hg.2.1 i h
+  have hasc := setOpIdx_strictAsc op f.idx g.idx hf.1
+  refine ⟨⟨.bit, f.bits, -1, setOpIdx op f.idx g.idx, []⟩, ?_, ?_, rfl, rfl, rfl, rfl, hasc, ?_⟩
+  · unfold Fp.setOp mkBit
+    rw [if_neg (by simpa using hb), any_ge_false _ _ hlt, uniq_of_strictAsc _ hasc]
+    rfl
+  · exact ⟨hasc, hlt, fun _ => rfl, fun h => absurd rfl h⟩
+  · intro x; exact mem_setOpIdx op _ _ x
+
+/-- the result of a successful set operator, whichever way it was obtained -/
+theorem setOp_spec (op : SetOp) (f g h : Fp) (hf : f.WF) (hg : g.WF) (hb : f.bits = g.bits)
+    (hr : Fp.setOp op f g = .ok h) :
+    h.WF ∧ h.bits = f.bits ∧ h.kind = .bit ∧ StrictAsc h.idx ∧
+      ∀ x, x ∈ h.idx ↔ memSpec op f.idx g.idx x := by
+  obtain ⟨h', hr', hw, hbits, hk, _, _, hs, hm⟩ := setOp_ok op f g hf hg hb
+  rw [hr] at hr'
+  cases hr'
+  exact ⟨hw, hbits, hk, hs, hm⟩
+
+example : Fp.setOp .xor ⟨.bit, 8, 5, [1, 3], []⟩ ⟨.bit, 8, 5, [3, 4], []⟩ = .ok ⟨.bit, 8, -1, [1, 4], []⟩ := by
+  rfl
+
+example : ∃ h, Fp.setOp .sub ⟨.bit, 8, 5, [1, 3], []⟩ ⟨.bit, 8, 5, [3, 4], []⟩ = .ok h ∧ h.WF ∧
+    ∀ x, x ∈ h.idx ↔ x ∈ [1, 3] ∧ x ∉ [3, 4] := by
+  obtain ⟨h, h1, h2, _, _, _, _, _, h3⟩ := setOp_ok .sub ⟨.bit, 8, 5, [1, 3], []⟩ ⟨.bit, 8, 5, [3, 4], []⟩
+    ⟨by decide, by decide, by simp, by simp⟩ ⟨by decide, by decide, by simp, by simp⟩ rfl
+  exact ⟨h, h1, h2, h3⟩
+
+/-- operands of different length are rejected -/
+theorem setOp_length_mismatch (op : SetOp) (f g : Fp) (h : f.bits ≠ g.bits) :
+    Fp.setOp op f g = .error .bitsValue := by
+  unfold Fp.setOp
+  rw [if_pos h]
+
+example : Fp.setOp .and ⟨.bit, 8, 5, [1, 3], []⟩ ⟨.bit, 16, 5, [3, 4], []⟩ = .error .bitsValue :=
+  setOp_length_mismatch _ _ _ (by decide)
+
+/-! ## pointwise arithmetic on count / float fingerprints -/
+
+/-- the explicit result of `f + g` / `f - g` -/
+theorem addSub_eq (sign : Int) (f g : Fp) (hg : g.kind ≠ .bit) (hb : f.bits = g.bits) :
+    Fp.addSub sign f g = .ok
+      ⟨resultKind f g, f.bits, resultLevel f g,
+        (uniq (f.idx ++ g.idx)).filter
+          (fun i => sign = 1 || decide (coerce (resultKind f g) (f.count i + sign * g.count i) ≠ 0)),
+        ((uniq (f.idx ++ g.idx)).filter
+          (fun i => sign = 1 || decide (coerce (resultKind f g) (f.count i + sign * g.count i) ≠ 0))).map
+          (fun i => (i, coerce (resultKind f g) (f.count i + sign * g.count i)))⟩ := by
+  unfold Fp.addSub
+  split
+  · rename_i hk; exact absurd hk hg
+  · rw [if_neg (by simpa using hb)]
+
+theorem resultKind_ne_bit (f g : Fp) (hf : f.kind ≠ .bit) : resultKind f g ≠ .bit := by
+  unfold resultKind; split
+  · simp
+  · exact hf
+
+/-- general form: the result of `f + sign·g` has, at every position, the coerced pointwise value -/
+theorem addSub_count_general (sign : Int) (f g h : Fp) (hf : f.WF) (hg : g.WF)
+    (hfk : f.kind ≠ .bit) (hgk : g.kind ≠ .bit) (hb : f.bits = g.bits)
+    (hr : Fp.addSub sign f g = .ok h) (i : Nat) :
+    h.count i = coerce (resultKind f g) (f.count i + sign * g.count i) := by
+  rw [addSub_eq sign f g hgk hb] at hr
+  cases hr
+  have hk := resultKind_ne_bit f g hfk
+  refine (Fp.count_of_ne_bit _ hk i).trans ?_
+  · simp only
+    generalize hu : (uniq (f.idx ++ g.idx)).filter _ = u
+    by_cases hi : i ∈ u
+    · exact lookupQ_map_of_mem (fun i => coerce (resultKind f g) (f.count i + sign * g.count i)) u i hi
+    · rw [lookupQ_map_of_not_mem (fun i => coerce (resultKind f g) (f.count i + sign * g.count i)) u i hi]
+      rw [← hu, List.mem_filter, mem_uniq, List.mem_append] at hi
+      by_cases hm : i ∈ f.idx ∨ i ∈ g.idx
+      · have : ¬ (sign = 1 || decide (coerce (resultKind f g) (f.count i + sign * g.count i) ≠ 0)) = true :=
+          fun h => hi ⟨hm, h⟩
+        simp only [Bool.or_eq_true, decide_eq_true_eq, not_or, ne_eq, Decidable.not_not] at this
+        exact this.2.symm
+      · rw [not_or] at hm
+        rw [Fp.count_of_not_mem f hf i hm.1, Fp.count_of_not_mem g hg i hm.2]
+        have : (0 : Rat) + (sign : Rat) * 0 = 0 := by grind
+        rw [this, coerce_zero]
+
+/-- `f + g` is pointwise addition -/
+theorem addSub_count (f g h : Fp) (hf : f.WF) (hg : g.WF)
+    (hfk : f.kind ≠ .bit) (hgk : g.kind ≠ .bit) (hb : f.bits = g.bits)
+    (hr : Fp.addSub 1 f g = .ok h) (i : Nat) :
+    h.kind = resultKind f g ∧ h.count i = coerce (resultKind f g) (f.count i + g.count i) := by
+  refine ⟨?_, ?_⟩
+  · rw [addSub_eq 1 f g hgk hb] at hr; cases hr; rfl
+  · have := addSub_count_general 1 f g h hf hg hfk hgk hb hr i
+    simpa using this
+
+/-- `f - g` is pointwise subtraction (positions whose difference is 0 are dropped from the index array,
+so their count reads 0 again) -/
+theorem addSub_count_sub (f g h : Fp) (hf : f.WF) (hg : g.WF)
+    (hfk : f.kind ≠ .bit) (hgk : g.kind ≠ .bit) (hb : f.bits = g.bits)
+    (hr : Fp.addSub (-1) f g = .ok h) (i : Nat) :
+    h.kind = resultKind f g ∧ h.count i = coerce (resultKind f g) (f.count i - g.count i) := by
+  refine ⟨?_, ?_⟩
+  · rw [addSub_eq (-1) f g hgk hb] at hr; cases hr; rfl
+  · have := addSub_count_general (-1) f g h hf hg hfk hgk hb hr i
+    rw [this]; congr 1; grind
+
+/-- the dropped positions of a difference are exactly the cancelling ones -/
+theorem addSub_sub_idx (f g h : Fp) (hgk : g.kind ≠ .bit) (hb : f.bits = g.bits)
+    (hr : Fp.addSub (-1) f g = .ok h) (i : Nat) :
+    i ∈ h.idx ↔ (i ∈ f.idx ∨ i ∈ g.idx) ∧ coerce (resultKind f g) (f.count i - g.count i) ≠ 0 := by
+  rw [addSub_eq (-1) f g hgk hb] at hr; cases hr
+  have e : f.count i + -1 * g.count i = f.count i - g.count i := by grind
+  simp [mem_uniq, e]
+
+/-- a sum keeps every position of either operand -/
+theorem addSub_add_idx (f g h : Fp) (hgk : g.kind ≠ .bit) (hb : f.bits = g.bits)
+    (hr : Fp.addSub 1 f g = .ok h) : h.idx = uniq (f.idx ++ g.idx) := by
+  rw [addSub_eq 1 f g hgk hb] at hr; cases hr
+  simp
+
+/-- the result of `f ± g` is well formed -/
+theorem addSub_wf (sign : Int) (f g h : Fp) (hf : f.WF) (hg : g.WF) (hgk : g.kind ≠ .bit)
+    (hfk : f.kind ≠ .bit) (hb : f.bits = g.bits) (hr : Fp.addSub sign f g = .ok h) : h.WF := by
+  rw [addSub_eq sign f g hgk hb] at hr; cases hr
+  refine ⟨List.Pairwise.filter _ (strictAsc_uniq _), ?_, ?_, ?_⟩
+  · intro i hi
+    simp only [List.mem_filter, mem_uniq, List.mem_append] at hi
+    rcases hi.1 with h | h
+    · exact hf.2.1 i h
+    · simp only; rw [hb]; exact hg.2.1 i h
+  · intro e; exact absurd e (resultKind_ne_bit f g hfk)
+  · intro _; simp [List.map_map, Function.comp_def]
+
+/-- operands of different length are rejected -/
+theorem addSub_length_mismatch (sign : Int) (f g : Fp) (hgk : g.kind ≠ .bit) (h : f.bits ≠ g.bits) :
+    Fp.addSub sign f g = .error .bitsValue := by
+  unfold Fp.addSub
+  split
+  · rename_i hk; exact absurd hk hgk
+  · rw [if_pos h]
+
+/-- a bit fingerprint on the right of `+` / `-` is rejected -/
+theorem addSub_bit_operand_rejected (sign : Int) (f g : Fp) (hgk : g.kind = .bit) :
+    Fp.addSub sign f g = .error .invalidFp := by
+  unfold Fp.addSub
+  rw [hgk]
+
+/-! ### non-vacuity of the arithmetic theorems -/
+
+def exF : Fp := ⟨.count, 8, 5, [1, 3], [(1, 2), (3, 1)]⟩
+def exG : Fp := ⟨.count, 8, 5, [3, 4], [(3, 1), (4, 5)]⟩
+
+theorem exF_wf : exF.WF := ⟨by decide, by decide, by simp [exF], by simp [exF]⟩
+theorem exG_wf : exG.WF := ⟨by decide, by decide, by simp [exG], by simp [exG]⟩
+
+example : ∃ h, Fp.addSub 1 exF exG = .ok h ∧ h.count 3 = coerce .count (exF.count 3 + exG.count 3) :=
+  ⟨_, addSub_eq 1 exF exG (by simp [exG]) rfl,
+    (addSub_count exF exG _ exF_wf exG_wf (by simp [exF]) (by simp [exG]) rfl
+      (addSub_eq 1 exF exG (by simp [exG]) rfl) 3).2⟩
+
+example : ∃ h, Fp.addSub (-1) exF exG = .ok h ∧ h.count 3 = coerce .count (exF.count 3 - exG.count 3) :=
+  ⟨_, addSub_eq (-1) exF exG (by simp [exG]) rfl,
+    (addSub_count_sub exF exG _ exF_wf exG_wf (by simp [exF]) (by simp [exG]) rfl
+      (addSub_eq (-1) exF exG (by simp [exG]) rfl) 3).2⟩
+
+example : Fp.addSub 1 exF ⟨.count, 16, 5, [], []⟩ = .error .bitsValue :=
+  addSub_length_mismatch _ _ _ (by simp) (by decide)
+
+example : Fp.addSub 1 exF ⟨.bit, 8, 5, [1], []⟩ = .error .invalidFp :=
+  addSub_bit_operand_rejected _ _ _ rfl
+
+/-! ## scalar multiplication and division -/
+
+/-- `f * x` in closed form (count / float `f` with positive counts) -/
+theorem mul_eq (f : Fp) (x : Rat) (hk : f.kind ≠ .bit) (hwf : f.WF) (hpos : ∀ p ∈ f.cnt, 0 < p.2) :
+    f.mul x = .ok ⟨f.kind, f.bits, f.level, f.idx, f.idx.map (fun i => (i, coerce f.kind (f.count i * x)))⟩ := by
+  unfold Fp.mul
+  rw [fromFingerprint_eq f.kind hk f hwf hpos]
+  rfl
+
+/-- `f * x` multiplies every count, through the class's value setter -/
+theorem mul_count (f h : Fp) (x : Rat) (hk : f.kind ≠ .bit) (hwf : f.WF) (hpos : ∀ p ∈ f.cnt, 0 < p.2)
+    (hr : f.mul x = .ok h) (i : Nat) :
+    h.idx = f.idx ∧ h.kind = f.kind ∧ h.count i = coerce f.kind (f.count i * x) := by
+  rw [mul_eq f x hk hwf hpos] at hr
+  cases hr
+  refine ⟨rfl, rfl, ?_⟩
+  rw [Fp.count_of_ne_bit (⟨f.kind, f.bits, f.level, f.idx,
+    f.idx.map (fun i => (i, coerce f.kind (f.count i * x)))⟩ : Fp) hk i]
+  simp only
+  by_cases hi : i ∈ f.idx
+  · exact lookupQ_map_of_mem (fun i => coerce f.kind (f.count i * x)) f.idx i hi
+  · rw [lookupQ_map_of_not_mem (fun i => coerce f.kind (f.count i * x)) f.idx i hi,
+      Fp.count_of_not_mem f hwf i hi]
+    have : (0 : Rat) * x = 0 := by grind
+    rw [this, coerce_zero]
+
+/-- `f / x` in closed form -/
+theorem div_eq (f : Fp) (x : Rat) (hx : x ≠ 0) (hwf : f.WF) (hpos : ∀ p ∈ f.cnt, 0 < p.2) :
+    f.div x = .ok ⟨.float, f.bits, f.level, f.idx, f.idx.map (fun i => (i, f.count i / x))⟩ := by
+  unfold Fp.div
+  rw [fromFingerprint_eq .float (by simp) f hwf hpos]
+  simp only [if_neg hx]
+  rfl
+
+/-- `f / x` divides every count exactly and is always a float fingerprint -/
+theorem div_count (f h : Fp) (x : Rat) (hx : x ≠ 0) (hwf : f.WF) (hpos : ∀ p ∈ f.cnt, 0 < p.2)
+    (hr : f.div x = .ok h) (i : Nat) :
+    h.idx = f.idx ∧ h.kind = .float ∧ h.count i = f.count i / x := by
+  rw [div_eq f x hx hwf hpos] at hr
+  cases hr
+  refine ⟨rfl, rfl, ?_⟩
+  refine (Fp.count_of_ne_bit _ (by simp) i).trans ?_
+  simp only
+  by_cases hi : i ∈ f.idx
+  · exact lookupQ_map_of_mem (fun i => f.count i / x) f.idx i hi
+  · rw [lookupQ_map_of_not_mem (fun i => f.count i / x) f.idx i hi, Fp.count_of_not_mem f hwf i hi]
+    grind
+
+/-- division by zero raises -/
+theorem div_zero (f : Fp) : f.div 0 = .error .zeroDiv := by
+  unfold Fp.div
+  simp
+  rfl
+
+theorem floordiv_zero (f : Fp) : f.floordiv 0 = .error .zeroDiv := by
+  unfold Fp.floordiv
+  simp
+  rfl
+
+/-- `f // x` keeps the positions whose count reaches `x` and stores `int(count / x)` there -/
+theorem floordiv_count (f h : Fp) (x : Rat) (hx : x ≠ 0) (hwf : f.WF) (hr : f.floordiv x = .ok h) (i : Nat) :
+    h.kind = .count ∧ (i ∈ h.idx ↔ i ∈ f.idx ∧ x ≤ f.count i) ∧
+      h.count i = if x ≤ f.count i then truncQ (f.count i / x) else 0 := by
+  have he : f.floordiv x = .ok ⟨.count, f.bits, f.level, f.idx.filter (fun i => decide (f.count i ≥ x)),
+      (f.idx.filter (fun i => decide (f.count i ≥ x))).map (fun i => (i, truncQ (f.count i / x)))⟩ := by
+    unfold Fp.floordiv
+    simp only [if_neg hx]
+  rw [he] at hr
+  cases hr
+  refine ⟨rfl, by simp, ?_⟩
+  refine (Fp.count_of_ne_bit _ (by simp) i).trans ?_
+  simp only
+  by_cases hi : i ∈ f.idx.filter (fun i => decide (f.count i ≥ x))
+  · rw [lookupQ_map_of_mem (fun i => truncQ (f.count i / x)) _ i hi]
+    have := (List.mem_filter.1 hi).2
+    simp only [ge_iff_le, decide_eq_true_eq] at this
+    rw [if_pos this]
+  · rw [lookupQ_map_of_not_mem (fun i => truncQ (f.count i / x)) _ i hi]
+    simp only [List.mem_filter, ge_iff_le, decide_eq_true_eq, not_and] at hi
+    by_cases hm : i ∈ f.idx
+    · rw [if_neg (hi hm)]
+    · rw [Fp.count_of_not_mem f hwf i hm]
+      split
+      · have : (0 : Rat) / x = 0 := by grind
+        rw [this]; exact (coerce_zero .count).symm
+      · rfl
+
+example : ∃ h, exF.mul 3 = .ok h ∧ h.count 1 = coerce .count (exF.count 1 * 3) := by
+  have hpos : ∀ p ∈ exF.cnt, 0 < p.2 := by
+    intro p hp; simp only [exF, List.mem_cons, List.not_mem_nil, or_false] at hp
+    rcases hp with rfl | rfl <;> grind
+  exact ⟨_, mul_eq exF 3 (by simp [exF]) exF_wf hpos,
+    (mul_count exF _ 3 (by simp [exF]) exF_wf hpos (mul_eq exF 3 (by simp [exF]) exF_wf hpos) 1).2.2⟩
+
+/-! ## batch addition -/
+
+theorem sumQ_eq_zero (l : List Rat) (h : ∀ x ∈ l, x = 0) : sumQ l = 0 := by
+  induction l with
+  | nil => rfl
+  | cons a as ih =>
+    simp only [sumQ]
+    rw [h a (by simp), ih (fun x hx => h x (by simp [hx]))]
+    grind
+
+theorem sumQ_isInt (l : List Rat) (h : ∀ x ∈ l, ∃ z : Int, x = (z : Rat)) : ∃ z : Int, sumQ l = (z : Rat) := by
+  induction l with
+  | nil => exact ⟨0, by simp [sumQ]⟩
+  | cons a as ih =>
+    obtain ⟨z1, h1⟩ := h a (by simp)
+    obtain ⟨z2, h2⟩ := ih (fun x hx => h x (by simp [hx]))
+    exact ⟨z1 + z2, by simp [sumQ, h1, h2, Rat.intCast_add]⟩
+
+/-- the kind `fprint.add` gives its result when no weights are passed -/
+def batchKind (fs : List Fp) : Kind := if fs.any (fun f => f.kind == .float) then Kind.float else Kind.count
+
+theorem addBatch_none_eq (f0 : Fp) (rest : List Fp) :
+    addBatch (f0 :: rest) none = .ok (some
+      ⟨batchKind (f0 :: rest), f0.bits, f0.level, uniq ((f0 :: rest).flatMap (·.idx)),
+        (uniq ((f0 :: rest).flatMap (·.idx))).map
+          (fun i => (i, coerce (batchKind (f0 :: rest)) (sumQ ((f0 :: rest).map (·.count i)))))⟩) := rfl
+
+theorem addBatch_some_eq (f0 : Fp) (rest : List Fp) (w : List Rat) (hl : w.length = (f0 :: rest).length) :
+    addBatch (f0 :: rest) (some w) = .ok (some
+      ⟨.float, f0.bits, f0.level, uniq ((f0 :: rest).flatMap (·.idx)),
+        (uniq ((f0 :: rest).flatMap (·.idx))).map
+          (fun i => (i, sumQ (((f0 :: rest).zip w).map (fun p => p.1.count i * p.2))))⟩) := by
+  unfold addBatch
+  simp only
+  rw [if_neg (by simpa using hl)]
+
+theorem batchKind_ne_bit (fs : List Fp) : batchKind fs ≠ .bit := by
+  unfold batchKind; split <;> simp
+
+/-- unweighted `fprint.add`: every position holds the (coerced) sum of the operands' counts there -/
+theorem addBatch_count (fs : List Fp) (h : Fp) (hwf : ∀ f ∈ fs, f.WF)
+    (hr : addBatch fs none = .ok (some h)) (i : Nat) :
+    h.kind = batchKind fs ∧ h.count i = coerce (batchKind fs) (sumQ (fs.map (·.count i))) := by
+  cases fs with
+  | nil => simp [addBatch] at hr
+  | cons f0 rest =>
+    rw [addBatch_none_eq] at hr
+    cases hr
+    refine ⟨rfl, ?_⟩
+    refine (Fp.count_of_ne_bit _ (batchKind_ne_bit _) i).trans ?_
+    simp only
+    generalize hu : uniq ((f0 :: rest).flatMap (·.idx)) = u
+    by_cases hi : i ∈ u
+    · exact lookupQ_map_of_mem (fun i => coerce (batchKind (f0 :: rest)) (sumQ ((f0 :: rest).map (fun x : Fp => x.count i)))) u i hi
+    · rw [lookupQ_map_of_not_mem (fun i => coerce (batchKind (f0 :: rest)) (sumQ ((f0 :: rest).map (fun x : Fp => x.count i)))) u i hi]
+      rw [← hu, mem_uniq, List.mem_flatMap] at hi
+      rw [sumQ_eq_zero, coerce_zero]
+      intro x hx
+      obtain ⟨f, hf, rfl⟩ := List.mem_map.1 hx
+      exact Fp.count_of_not_mem f (hwf f hf) i (fun hm => hi ⟨f, hf, hm⟩)
+
+/-- with a float operand present the sums are stored as they are -/
+theorem addBatch_count_float (fs : List Fp) (h : Fp) (hwf : ∀ f ∈ fs, f.WF)
+    (hfl : fs.any (fun f => f.kind == .float) = true)
+    (hr : addBatch fs none = .ok (some h)) (i : Nat) :
+    h.kind = .float ∧ h.count i = sumQ (fs.map (·.count i)) := by
+  have := addBatch_count fs h hwf hr i
+  have hk : batchKind fs = .float := by unfold batchKind; rw [if_pos hfl]
+  rw [hk] at this
+  exact this
+
+/-- with integral counts throughout (bit and count operands built by the constructors) the sums are exact -/
+theorem addBatch_count_integral (fs : List Fp) (h : Fp) (hwf : ∀ f ∈ fs, f.WF)
+    (hint : ∀ f ∈ fs, ∀ j, ∃ z : Int, f.count j = (z : Rat))
+    (hr : addBatch fs none = .ok (some h)) (i : Nat) :
+    h.count i = sumQ (fs.map (·.count i)) := by
+  rw [(addBatch_count fs h hwf hr i).2]
+  obtain ⟨z, hz⟩ := sumQ_isInt (fs.map (·.count i)) (by
+    intro x hx
+    obtain ⟨f, hf, rfl⟩ := List.mem_map.1 hx
+    exact hint f hf i)
+  rw [hz, coerce_intCast]
+
+/-- a weight list of the wrong length is rejected -/
+theorem addBatch_weights_mismatch (f0 : Fp) (rest : List Fp) (w : List Rat) (h : w.length ≠ (f0 :: rest).length) :
+    addBatch (f0 :: rest) (some w) = .error .value := by
+  simp only [addBatch]
+  rw [if_pos h]
+
+/-- the support of the sum is the union of the supports, and the result is well formed -/
+theorem addBatch_idx (fs : List Fp) (h : Fp) (hwf : ∀ f ∈ fs, f.WF) (hbits : ∀ f ∈ fs, f.bits = (fs.headD default).bits)
+    (w : Option (List Rat)) (hr : addBatch fs w = .ok (some h)) :
+    h.idx = uniq (fs.flatMap (·.idx)) ∧ h.WF := by
+  cases fs with
+  | nil => cases w <;> simp [addBatch] at hr
+  | cons f0 rest =>
+    have hlt : ∀ i ∈ uniq ((f0 :: rest).flatMap (·.idx)), i < f0.bits := by
+      intro i hi
+      rw [mem_uniq, List.mem_flatMap] at hi
+      obtain ⟨f, hf, hm⟩ := hi
+      have := hbits f hf
+      simp only [List.headD_cons] at this
+      rw [← this]; exact (hwf f hf).2.1 i hm
+    cases w with
+    | none =>
+      rw [addBatch_none_eq] at hr
+      cases hr
+      refine ⟨rfl, strictAsc_uniq _, hlt, ?_, ?_⟩
+      · intro e; exact absurd e (batchKind_ne_bit _)
+      · intro _; simp [List.map_map, Function.comp_def]
+    | some w =>
+      by_cases hl : w.length = (f0 :: rest).length
+      · rw [addBatch_some_eq f0 rest w hl] at hr
+        cases hr
+        refine ⟨rfl, strictAsc_uniq _, hlt, ?_, ?_⟩
+        · intro e; cases e
+        · intro _; simp [List.map_map, Function.comp_def]
+      · rw [addBatch_weights_mismatch f0 rest w hl] at hr; cases hr
+
+/-- weighted `fprint.add`: every position holds the weighted sum of the operands' counts -/
+theorem addBatch_count_weighted (fs : List Fp) (w : List Rat) (h : Fp) (hwf : ∀ f ∈ fs, f.WF)
+    (hr : addBatch fs (some w) = .ok (some h)) (i : Nat) :
+    h.kind = .float ∧ h.count i = sumQ ((fs.zip w).map (fun p => p.1.count i * p.2)) := by
+  cases fs with
+  | nil => simp [addBatch] at hr
+  | cons f0 rest =>
+    by_cases hl : w.length = (f0 :: rest).length
+    case neg => rw [addBatch_weights_mismatch f0 rest w hl] at hr; cases hr
+    case pos =>
+      rw [addBatch_some_eq f0 rest w hl] at hr
+      cases hr
+      refine ⟨rfl, ?_⟩
+      refine (Fp.count_of_ne_bit _ (by simp) i).trans ?_
+      simp only
+      generalize hu : uniq ((f0 :: rest).flatMap (·.idx)) = u
+      by_cases hi : i ∈ u
+      · exact lookupQ_map_of_mem (fun i => sumQ (((f0 :: rest).zip w).map (fun p : Fp × Rat => p.1.count i * p.2))) u i hi
+      · rw [lookupQ_map_of_not_mem (fun i => sumQ (((f0 :: rest).zip w).map (fun p : Fp × Rat => p.1.count i * p.2))) u i hi]
+        rw [← hu, mem_uniq, List.mem_flatMap] at hi
+        rw [sumQ_eq_zero]
+        intro x hx
+        obtain ⟨p, hp, rfl⟩ := List.mem_map.1 hx
+        have hf := (List.of_mem_zip hp).1
+        rw [Fp.count_of_not_mem p.1 (hwf p.1 hf) i (fun hm => hi ⟨p.1, hf, hm⟩)]
+        grind
+
+example : ∃ h, addBatch [exF, exG] none = .ok (some h) ∧ h.count 3 = sumQ ([exF, exG].map (·.count 3)) := by
+  refine ⟨_, rfl, ?_⟩
+  apply addBatch_count_integral [exF, exG] _ _ _ rfl
+  · intro f hf
+    simp only [List.mem_cons, List.not_mem_nil, or_false] at hf
+    rcases hf with rfl | rfl
+    · exact exF_wf
+    · exact exG_wf
+  · intro f hf j
+    simp only [List.mem_cons, List.not_mem_nil, or_false] at hf
+    rcases hf with rfl | rfl
+    · simp only [exF, Fp.count, lookupQ]
+      split
+      · exact ⟨2, by simp⟩
+      · split
+        · exact ⟨1, by simp⟩
+        · exact ⟨0, by simp⟩
+    · simp only [exG, Fp.count, lookupQ]
+      split
+      · exact ⟨1, by simp⟩
+      · split
+        · exact ⟨5, by simp⟩
+        · exact ⟨0, by simp⟩
+
+def exH : Fp := ⟨.float, 8, 5, [2], [(2, 1 / 2)]⟩
+theorem exH_wf : exH.WF := ⟨by decide, by decide, by simp [exH], by simp [exH]⟩
+
+theorem ex_all_wf : ∀ f ∈ [exF, exH], f.WF := by
+  intro f hf
+  simp only [List.mem_cons, List.not_mem_nil, or_false] at hf
+  rcases hf with rfl | rfl
+  · exact exF_wf
+  · exact exH_wf
+
+example : ∃ h, addBatch [exF, exH] none = .ok (some h) ∧ h.kind = .float ∧
+    h.count 2 = sumQ ([exF, exH].map (·.count 2)) :=
+  ⟨_, addBatch_none_eq exF [exH], addBatch_count_float [exF, exH] _ ex_all_wf rfl (addBatch_none_eq exF [exH]) 2⟩
+
+example : ∃ h, addBatch [exF, exH] (some [2, 3]) = .ok (some h) ∧
+    h.count 2 = sumQ (([exF, exH].zip [2, 3]).map (fun p => p.1.count 2 * p.2)) ∧ h.WF :=
+  ⟨_, addBatch_some_eq exF [exH] [2, 3] rfl,
+    (addBatch_count_weighted [exF, exH] [2, 3] _ ex_all_wf (addBatch_some_eq exF [exH] [2, 3] rfl) 2).2,
+    (addBatch_idx [exF, exH] _ ex_all_wf (by
+      intro f hf
+      simp only [List.mem_cons, List.not_mem_nil, or_false] at hf
+      rcases hf with rfl | rfl <;> rfl) _ (addBatch_some_eq exF [exH] [2, 3] rfl)).2⟩
+
+example : addBatch [exF, exH] (some [2]) = .error .value := addBatch_weights_mismatch _ _ _ (by decide)
 
 end E3fpVerif.Props.C11
